@@ -287,14 +287,15 @@ def _contract_case(case):
                 viol("baseline-additive", f"{aname}:db={db}",
                      f"max dev {np.max(np.abs(Fb - (F + db))):.3e}")
         # linear in the moduli
-        for c in (2.0, 0.5, 3.7):
+        # (also very small factors: moduli in other units, e.g. N/um^2)
+        for c in (2.0, 0.5, 3.7, 2.0 ** -40, 1e-12):
             v2 = dict(vals)
             for m in MODULI.get(mk, ["E"]):
                 v2[m] = vals[m] * c
             Fc = md.model(make_params(mk, v2), x)
             dev = np.abs((Fc - b) - c * (F - b))
             tol = 8 * ulp(np.abs(b) + c * np.abs(F - b) + np.abs(F))
-            if c in (2.0, 0.5) and b == 0:
+            if c in (2.0, 0.5, 2.0 ** -40) and b == 0:
                 tol = np.zeros_like(dev)       # exact for powers of two
             if not np.all(dev <= tol):
                 viol("modulus-linear", f"{aname}:c={c}", f"(F-b) does not "
